@@ -18,14 +18,46 @@ fn main() {
     std::panic::set_hook(Box::new(|_| {}));
     match args.get(1).map(|s| s.as_str()) {
         Some("serve") => {
+            // Requests are answered on a worker thread (large stack); the main thread is the watchdog: a request that
+            // is not answered within ULH_TIMEOUT_MS (default 3 s) is reported as `timeout` and the process exits with
+            // status 3 (a thread that loops cannot be stopped) - the checker restarts it after that request.
+            use std::sync::mpsc;
+            use std::time::Duration;
+            let limit = std::env::var("ULH_TIMEOUT_MS").ok().and_then(|v| v.parse().ok()).unwrap_or(3_000u64);
+            let (tx_req, rx_req) = mpsc::channel::<String>();
+            let (tx_res, rx_res) = mpsc::channel::<String>();
+            std::thread::Builder::new()
+                .stack_size(256 << 20)
+                .spawn(move || {
+                    for line in rx_req {
+                        if tx_res.send(ops::answer(&line)).is_err() {
+                            break;
+                        }
+                    }
+                })
+                .expect("spawn");
             let stdin = std::io::stdin();
             let stdout = std::io::stdout();
             let mut out = BufWriter::with_capacity(1 << 20, stdout.lock());
             for line in stdin.lock().lines() {
                 let line = line.expect("stdin");
-                let resp = ops::answer(&line);
-                out.write_all(resp.as_bytes()).unwrap();
-                out.write_all(b"\n").unwrap();
+                tx_req.send(line).expect("worker");
+                match rx_res.recv_timeout(Duration::from_millis(limit)) {
+                    Ok(resp) => {
+                        out.write_all(resp.as_bytes()).unwrap();
+                        out.write_all(b"\n").unwrap();
+                    }
+                    Err(mpsc::RecvTimeoutError::Timeout) => {
+                        out.write_all(b"timeout\n").unwrap();
+                        out.flush().unwrap();
+                        std::process::exit(3);
+                    }
+                    Err(mpsc::RecvTimeoutError::Disconnected) => {
+                        out.write_all(b"died\n").unwrap();
+                        out.flush().unwrap();
+                        std::process::exit(4);
+                    }
+                }
             }
             out.flush().unwrap();
         }
